@@ -301,6 +301,63 @@ nd::harnesses! {
         });
     }
 
+    /// clone, END, clone again inside one poll: a = w.clone(); a ends (drop or wake, symbolic);
+    /// b = w.clone() - the second clone is a fresh, owning handle.
+    #[kani::unwind(3)]
+    fn c19_clone_end_clone() {
+        with_orig!(cnt, orig, {
+            let mut wakes = 0u32;
+            let mut hb = {
+                let cw = CRefWaker::from(&orig);
+                cw.with_waker(|w| {
+                    let a = w.clone();
+                    let mut ha = H { w: ManuallyDrop::new(a), alive: true, end: 0, by_wake: nd::any() };
+                    phase(&mut ha, 0, &mut wakes);
+                    assert!(!ha.alive);
+                    let b = w.clone();
+                    let mut hb = H::new(b, 3);
+                    if nd::any() { w.wake_by_ref(); wakes += 1; }
+                    phase(&mut hb, 0, &mut wakes);
+                    phase(&mut hb, 1, &mut wakes);
+                    hb
+                })
+            };
+            phase(&mut hb, 2, &mut wakes);
+            let c = unsafe { &*(&cnt as *const Cnt) };
+            finish(c, wakes, &[&hb]);
+            assert!(c.clones == 2);
+        });
+    }
+
+    /// The caller's OWN waker goes away right after the poll while foreign handles are retained: they keep
+    /// the clones alive, and nothing is touched after the last of them is gone (floor = 0).
+    #[kani::unwind(3)]
+    fn c19_chain2_caller_waker_dropped_first() {
+        let mut cnt = Cnt { live: 1, wakes: 0, bad: false, clones: 0 };
+        let orig = unsafe { Waker::from_raw(RawWaker::new(&mut cnt as *mut Cnt as *const (), &VT)) };
+        let mut wakes = 0u32;
+        let (mut ha, mut hb) = {
+            let cw = CRefWaker::from(&orig);
+            cw.with_waker(|w| {
+                let a = w.clone();
+                let b = a.clone();
+                let mut ha = H::new(a, 3);
+                let mut hb = H::new(b, 3);
+                phase(&mut ha, 0, &mut wakes); phase(&mut hb, 0, &mut wakes);
+                phase(&mut hb, 1, &mut wakes); phase(&mut ha, 1, &mut wakes);
+                (ha, hb)
+            })
+        };
+        drop(orig); // w_drop: live -= 1
+        nd::cover!(ha.alive || hb.alive, "a foreign handle outlives the caller's waker");
+        if nd::any() { phase(&mut ha, 2, &mut wakes); phase(&mut hb, 2, &mut wakes); }
+        else { phase(&mut hb, 2, &mut wakes); phase(&mut ha, 2, &mut wakes); }
+        let c = unsafe { &*(&cnt as *const Cnt) };
+        assert!(!ha.alive && !hb.alive);
+        assert!(!c.bad, "nothing touches the original after all handles (the caller's included) are gone");
+        assert!(c.live == 0 && c.wakes == wakes);
+    }
+
     /// No clone at all: only wake_by_ref on the borrowed waker, any number (0..=3) of times.
     #[kani::unwind(5)]
     fn c19_borrowed_only() {
